@@ -352,6 +352,8 @@ def reserved_bytes(ctx, prog, rule):
             v = strip(val)
             while v[0] == "cast":
                 v = strip(v[2])
+            if v[0] == "phi" and len([a for a in v[1] if strip(a)[0] != "const"]) == 1:
+                v = strip([a for a in v[1] if strip(a)[0] != "const"][0])
             if v[0] == "binop" or (v[0] == "call" and v[1].rsplit("::", 1)[-1] in ("any", "all")):
                 continue                     # a test of a computed quantity (alignment of the length) / handled below
             unknown.append(tree_str(strip_deep(val))[:80])
@@ -368,6 +370,11 @@ def reserved_bytes(ctx, prog, rule):
         if t["k"] != "switch" or op_place(t["discr"]) is None:
             continue
         d = strip(R.place(op_place(t["discr"])))
+        if d[0] == "phi":
+            # `let used = a != 0 || rest.iter().any(..)`: the constant arm of the flag was threaded past this switch
+            nonconst = [a for a in d[1] if strip(a)[0] != "const"]
+            if len(nonconst) == 1:
+                d = strip(nonconst[0])
         if not (d[0] == "call" and d[1].rsplit("::", 1)[-1] in ("any", "all") and len(d[2]) == 2):
             continue
         which = d[1].rsplit("::", 1)[-1]
